@@ -115,10 +115,27 @@ def build_n(ncells):
             st.cells.append(card)
             st.expected[num] = max(d.values())
         mode = ch.choose('shorthand', ['expanded', 'R', 'M', 'I', 'all'])
+        # a cell of an (unused) universe between the level-0 cells: it occupies a position on the IMP data cards
+        upos = ch.choose('universe-cell-at', [None, 1, 0, 2])
+        dn, dp = list(nvals), list(pvals)
+        st.filled = None
+        if upos is not None:
+            # optionally one of the level-0 cells is FILLed with that universe (its pieces get generated numbers)
+            fidx = ch.choose('filled-cell', [None, 0, 1, 2])
+            if fidx is not None and not src[fidx].startswith('like:') and not (
+                    fidx + 1 < ncells and src[fidx + 1].startswith('like:')):
+                head = '%d 0 %d -%d' % (NUMS[fidx], fidx + 1, fidx + 2)
+                assert st.cells[fidx].startswith(head)
+                st.cells[fidx] = head + ' fill=9' + st.cells[fidx][len(head):]     # before any $ comment
+                st.filled = NUMS[fidx]
+            st.cells.insert(upos, '77 0 -%d u=9 imp:n=1' % (ncells + 2) if not any_none else '77 0 -%d u=9' % (ncells + 2))
+            st.cells.insert(upos + 1, '78 0 %d u=9 imp:n=1' % (ncells + 2) if not any_none else '78 0 %d u=9' % (ncells + 2))
+            st.surfs.append('%d so 1' % (ncells + 2))
+            dn[upos:upos] = [1, 1]; dp[upos:upos] = [1, 1]
         if any_none:
-            st.data.append('imp:n ' + ' '.join(compress(nvals, mode)))
+            st.data.append('imp:n ' + ' '.join(compress(dn, mode)))
             if use_p_card:
-                st.data.append('imp:p ' + ' '.join(compress(pvals, mode)))
+                st.data.append('imp:p ' + ' '.join(compress(dp, mode)))
         if not any(st.expected.values()):
             ch.reject()
         return st
@@ -145,12 +162,18 @@ def check_state(scn, st, corrupt=False):
     if corrupt:
         k = next(iter(expected))
         expected[k] = 0 if expected[k] else 1
-    want = sorted(n for n, v in expected.items() if v != 0)
+    want = sorted(n for n, v in expected.items() if v != 0 and n != getattr(st, 'filled', None))
     dropped = sorted(n for n, v in expected.items() if v == 0)
-    got = sorted(t4.nonvirtual())
+    got = sorted(v for v in t4.nonvirtual() if not t4.provenance(v))
     bad = []
     if got != want:
         bad.append('VOLU ids %s, expected %s' % (got, want))
+    # the pieces of a filled level-0 cell carry (filler, container) in their comment
+    filled = getattr(st, 'filled', None)
+    containers = sorted(set(t4.provenance(v)[-1][1] for v in t4.nonvirtual() if t4.provenance(v)))
+    want_cont = [filled] if filled is not None and expected[filled] != 0 else []
+    if containers != want_cont:
+        bad.append('volumes generated for filled level-0 cells %s, expected %s' % (containers, want_cont))
     m = re.search(r'NOTE: the following cells have been omitted.*?\[(.*?)\]', r.stdout, re.S)
     noted = sorted(int(x) for x in m.group(1).split(',') if x.strip()) if m else []
     if noted != dropped:
